@@ -15,8 +15,32 @@ META = {
 KIND_CLASS = {"strplain": "str", "strsmall": "str", "strsafe": "str", "bytes": "bytes", "tuple": "tuple"}
 
 
+def py_chain(kind, ln, suffix):
+    """CPython itself evaluates the chain of slices / subscripts on list(range(len))"""
+    cur = list(range(ln))
+    import re
+    ops = re.findall(r"\[([^\]]*)\]", suffix)
+    for n, body in enumerate(ops):
+        parts = body.split(":")
+        if len(parts) == 1:
+            if n != len(ops) - 1:
+                return "bad-case"
+            try:
+                return "elem:%d" % cur[int(parts[0])]
+            except IndexError:
+                return "undef"
+        a, b, c = (parts + [""])[:3]
+        a, b, c = [None if x == "" else int(x) for x in (a, b, c)]
+        if c == 0:
+            return "err:InvalidOperation"
+        cur = cur[slice(a, b, c)]
+    return KIND_CLASS.get(kind, "list") + ":" + ",".join(map(str, cur))
+
+
 def py_expect(f):
     """CPython as independent witness of the spec"""
+    if f[0] == "chain":
+        return py_chain(f[1], int(f[2]), f[3])
     if f[0] == "slice":
         kind, ln = f[1], int(f[2])
         a, b, c = [None if x == "_" else int(x) for x in f[3:6]]
@@ -58,11 +82,12 @@ def run(r):
     if model is None or len(model) != len(lines):
         r.broken.append("model driver output does not line up with the harness cases")
         model = None
-    r.exhaustive = True
+    r.extra["box_of_quantifier_exhaustive"] = True
+    r.exhaustive = False  # the box of the quantifier is enumerated completely; the chain stream (longer sequences, more kinds, slices of slices) is sampled
     for i, line in enumerate(lines):
         case, impl = line.split("\t")
         f = case.split()
-        nontrivial = f[1] not in ("undef", "none") and f[2] != "0"
+        nontrivial = f[1] not in ("undef", "none") and f[2] != "0" and not (f[0] == "chain" and impl in ("undef", "list:", "str:", "tuple:", "bytes:"))
         r.count(case, nontrivial)
         r.hist["stream"][f[0]] += 1
         r.hist["kind"][f[1]] += 1
@@ -75,7 +100,10 @@ def run(r):
             if spec != spec_py:
                 r.broken.append(f"Lean PySlice disagrees with CPython on {case}: {spec} vs {spec_py}")
         if impl != spec_py:
-            site = "panic" if impl == "panic" else ("slice:" if f[0] == "slice" else "index:") + f[1] + (":backward" if f[0] == "slice" and f[5].startswith("-") else ":forward")
+            if f[0] == "chain":
+                site = "panic" if impl == "panic" else "chain:" + f[1]
+            else:
+                site = "panic" if impl == "panic" else ("slice:" if f[0] == "slice" else "index:") + f[1] + (":backward" if f[0] == "slice" and f[5].startswith("-") else ":forward")
             r.oracle_failure(case, f"engine returned {impl}, Python selects {spec_py}", site)
         if i % 40000 == 0:
             r.sample({"case": case, "engine": impl, "python": spec_py})
